@@ -3,7 +3,7 @@ from propkit import job
 KIT = "harness/core/internal/integration_tests/vfnet_test.go"
 H = "harness/core/internal/integration_tests/c10_rate_test.go"
 
-PARTS = ["c10-negotiate", "c10-rawclient", "c10-fakeserver"]
+PARTS = ["c10-negotiate", "c10-rawclient", "c10-fakeserver", "c10-history"]
 NSHARDS = 12
 
 PROP = {
@@ -39,7 +39,15 @@ PROP = {
              "space or tab. c10-fakeserver (real client, plain http3 server answering 233): client MaxTx x 23 "
              "Hysteria-CC-RX response values (auto, absent, empty, 0, 1, numbers, 2^64-1, overflow, garbage incl. "
              "'automatic', whitespace-padded) x Hysteria-UDP true/false/absent/garbage rotating (quick: controller "
-             "rotating, 138 handshakes; thorough: x 4 controllers, 552). Per handshake the oracle compares (a) the "
+             "rotating, 138 handshakes; thorough: x 4 controllers, 552). c10-history (real server x real client, ONE "
+             "*client.Config value reused): 2..4 successive handshakes against servers at the same address whose answer "
+             "is auto (A) / a numeric limit (N) / unlimited (U); mode newclient = client.NewClient(cfg) per step, mode "
+             "reconnect = NewReconnectableClient whose configFunc returns the same cfg and the server is replaced "
+             "between steps; quick: all 9 orders of length 2 in both modes, all 27 of length 3, 12 PRNG of length 4 (57 "
+             "histories, 165 handshakes); thorough: all 117 orders of length 2..4 x both modes x 3 client "
+             "configurations (702 histories). Every step is judged with the limits the client was originally "
+             "configured with, and the caller's Config.BandwidthConfig must be unchanged after each handshake. "
+             "Per handshake the oracle compares (a) the "
              "controller effective on each end (hook: the last report that installs something, brutal+bps / bbr+profile; a "
              "'reno' report installs nothing, so Reno only if nothing was installed before) with the reference rule; "
              "server-end reports that precede the connection's auth_ok in the ordered log are recorded and name the "
